@@ -239,12 +239,19 @@ class Pool:
                       "F": dict(model_key="hertz_para", range_x=(5e-3, 6e-3)),  # no points: failed fit
                       # interval bounds computed from the data (all seventeen significant digits matter)
                       "P": dict(model_key="hertz_para", range_type="absolute"),
+                      # the settings of "A" on a curve whose approach / retract switch was moved by hand
+                      "M": dict(model_key="hertz_para"),
                       "nopre": dict(model_key="hertz_para", x_axis="tip position")}[variant]
                 if variant == "P":
                     tp_ = np.asarray(idnt["tip position"], dtype=float)
                     kw["range_x"] = (float(tp_.min()) * 0.6180339887498949, float(tp_.max()) * 0.7071067811865476)
                 if variant == "nopre":
                     idnt.apply_preprocessing(["compute_tip_position"])
+                if variant == "M":
+                    seg_ = np.array(idnt["segment"], copy=True)
+                    sw_ = int(np.argmax(seg_ > 0))
+                    seg_[max(sw_ - 40, 5):sw_] = 1
+                    idnt["segment"] = seg_
                 idnt.fit_model(**kw)
             self.cache[k] = idnt
         return self.cache[k]
@@ -346,6 +353,15 @@ def run(ctx):
                 plan = [(keys[-1], "S", 4), (keys[0], "S", 6)]
             if s == 3:
                 plan = [((pool.dwell_index, 0), "D", 8), ((pool.dwell_index, 0), "D", 2.5)]
+            # "storing a different fit for an already stored curve is refused", directed: a fit that found no points
+            # (all-NaN columns) after a successful one and the other way round; a fit with identical settings - and
+            # therefore an identical hash - of a curve whose approach / retract switch was moved by hand
+            if s == 4:
+                plan = [(keys[1 % len(keys)], "A", 5), (keys[1 % len(keys)], "F", 2)]
+            if s == 5:
+                plan = [(keys[2 % len(keys)], "F", 2), (keys[2 % len(keys)], "A", 5)]
+            if s == 6:
+                plan = [(keys[0], "A", 5), (keys[0], "M", 6), (keys[0], "A", 7)]
             for step in range(len(plan) if plan else rng.randint(2, 5)):
                 fi, enum = rng.choice(keys)
                 idd_known = [k for k in stored if stored[k][3] == (fi, enum)]
